@@ -390,6 +390,7 @@ def diagram_rule_incomplete(ctx):
 
 
 def run(ctx: Ctx):
+    rules.MEMBER_SPELLING = True
     hists = []
     maxlen = 4 if ctx.quick else 5
     for k in range(maxlen + 1):
